@@ -136,6 +136,10 @@ func (db *DB) Start(initCheckpoints []recovery.CheckpointHandle) error {
 	db.sstables = latestCP.Levels
 	db.seqNum = latestCP.Levels.LatestSeqNum
 
+	// Number new tables after the ones the checkpoint references. A database that
+	// is reopened in the same directory must not overwrite their files.
+	db.tableWriter.StartAt(latestCP.Levels.NextTableID())
+
 	// Start a new writer that doesn't write to a file yet.
 	db.wal = wal.NewWriter(db.fs, latestCP.NextWALID(), db.maxWALSize)
 
